@@ -12,7 +12,7 @@ using namespace photon;
 
 static vh::NamedCounter c_wait_ok("wait_ok"), c_wait_timeout("wait_timeout"), c_wait_intr("wait_interrupted"),
     c_signals("signals"), c_signals_os("signals_from_os_thread"), c_blocked("waits_that_blocked"),
-    c_destroy("destroy_after_wait_rounds"), c_stale("interrupt_code_seen_again"), c_intr_sent("interrupts_sent");
+    c_destroy("destroy_after_wait_rounds"), c_stale("interrupt_code_seen_again"), c_intr_sent("interrupts_sent"), c_arrived_during_signal("destroy_waiter_saw_token_before_wait");
 
 struct Sem {
     semaphore* s;
@@ -183,6 +183,11 @@ static void* destroy_waiter(void* arg) {
         auto& mb = g_mailbox[r.below(4)];
         semaphore* exp = nullptr;
         while (!mb.compare_exchange_weak(exp, s, std::memory_order_acq_rel)) { exp = nullptr; thread_yield(); }
+        // sometimes arrive at wait() while signal() is still in progress (the token is already visible)
+        if (r.chance(1, 2)) {
+            for (int spin = 0; spin < 20000 && s->count() == 0; ++spin) { if ((spin & 255) == 255) thread_yield(); else _mm_pause(); }
+            c_arrived_during_signal.add(s->count() != 0);
+        }
         int ret = s->wait(1);
         delete s;                                   // immediately: signal() must not touch it any more
         if (ret != 0) vh::violation("wait/untimed-failed", "wait(1) failed in destroy-after-wait", "null");
@@ -202,7 +207,7 @@ struct ScriptRound {
     std::atomic<int> small_done{0}, head_done{0}, queued{0};
     std::atomic<thread*> head{nullptr};
 };
-static ScriptRound* g_sr = nullptr;
+static std::atomic<ScriptRound*> g_sr{nullptr};
 static std::atomic<int> g_script_blocked_small{0};
 static vh::NamedCounter c_script("script_rounds"), c_script_head_intr("script_head_interrupted"), c_script_head_to("script_head_timed_out");
 static void* script_head(void* arg) {
@@ -228,7 +233,7 @@ static void* script_small(void* arg) {
 }
 static int run_script_mode(vh::Rng& r, int nv, uint64_t rounds) {
     vh::start_supervisor([](std::string& k, std::string& w, std::string& wit) {
-        auto sr = g_sr;
+        auto sr = g_sr.load();
         if (sr && sr->head_done.load() && sr->small_done.load() < 2 && sr->s->count() >= 1) {
             k = "lost-wakeup:inorder";
             w = "the head waiter left (interrupt/timeout) and count() covers the waiters queued behind it, but they stay blocked";
@@ -249,7 +254,8 @@ static int run_script_mode(vh::Rng& r, int nv, uint64_t rounds) {
                 int ph = phase.load(std::memory_order_acquire);
                 if (ph != seen && ph > 0) {
                     seen = ph;
-                    auto sr = g_sr;
+                    auto sr = g_sr.load(std::memory_order_acquire);
+                    if (!sr) continue;
                     if (place[0].load() == v) thread_create(script_head, sr, 128 * 1024);
                     thread_yield();
                     if (place[1].load() == v) thread_create(script_small, sr, 128 * 1024);
@@ -262,7 +268,7 @@ static int run_script_mode(vh::Rng& r, int nv, uint64_t rounds) {
         for (uint64_t i = 0; i < rounds; ++i) {
             auto sr = new ScriptRound;
             sr->s = new semaphore(0, true);
-            g_sr = sr;
+            g_sr.store(sr, std::memory_order_release);
             for (int k = 0; k < 3; ++k) place[k].store(r.below(nv));
             phase.fetch_add(1, std::memory_order_acq_rel);
             if (place[0].load() == 0) thread_create(script_head, sr, 128 * 1024);
@@ -282,9 +288,8 @@ static int run_script_mode(vh::Rng& r, int nv, uint64_t rounds) {
             c_script.add();
             vh::event(3);
             vh::progress();
-            g_sr = nullptr;
-            thread_usleep(200);                          // threads of this round exit
-            delete sr->s; delete sr;
+            g_sr.store(nullptr, std::memory_order_release);
+            thread_usleep(200);                          // threads of this round exit (round objects are kept: a helper may still look at them)
         }
         stop.store(true, std::memory_order_release);
     });
